@@ -121,7 +121,12 @@ def check(tier):
                   "from t | derive {x = a // 2, r = s ~= 'a', d = (s | as date), z = f\"{a}-{b}\"} | take 3..5 | group a (take 1)"]
             DL = ["ansi", "bigquery", "clickhouse", "duckdb", "generic", "glaredb", "mssql", "mysql", "postgres", "redshift", "sqlite", "snowflake"]
             fwd = [{"id": f"kw{j}/{dl}", "src": src_, "dialect": dl} for dl in DL for j, src_ in enumerate(KW)]
-            for tag_, lst in (("dfwd", fwd), ("drev", list(reversed(fwd))), ("dmix", fwd[1::2] + fwd[0::2])):
+            # every dialect comes first once (a rotation per dialect), plus the reverse order
+            orders = [("drev", list(reversed(fwd)))]
+            for r_ in range(len(DL)):
+                rot = DL[r_:] + DL[:r_]
+                orders.append((f"drot{r_}", [{"id": f"kw{j}/{dl}", "src": src_, "dialect": dl} for dl in rot for j, src_ in enumerate(KW)]))
+            for tag_, lst in orders:
                 dp = os.path.join(d, f"{tag_}.json"); json.dump(lst, open(dp, "w"))
                 op_ = os.path.join(d, f"{tag_}.ndjson")
                 pv(["purity", dp, op_, "1", "1", "0", "dialect-order:" + tag_])
